@@ -41,15 +41,16 @@ def appendSessionOps {σ} (base : Bytes) (cfg : WConfig σ) (ms : List WMember) 
   let hdr ← writeHeaderRaw true H' (appendPos H + out.length)
   pure (appendOps (appendPos H) (sigHeaderBytes (appendPos H + out.length - 32) hdr.length (crc32 hdr)) (out ++ hdr))
 
-/-- the reader's second gate (py7zr.py:430-438 `_read_header`, archiveinfo.py `Header.retrieve`): the header the
-    signature header points at must lie inside the file and carry the stored CRC; `none` = Bad7zFile -/
+/-- the reader's second gate (py7zr.py `_real_get_contents`: `_read_full(nextheadersize)` then the CRC comparison):
+    whatever can be read of the header the signature header points at -- `_read_full` stops at end of file without
+    complaint -- must carry the stored CRC; `none` = Bad7zFile -/
 def headerGate (img : Bytes) : Option Bytes :=
   if startHeaderOk img then
     let ofs := ofLE ((img.drop 12).take 8)
     let size := ofLE ((img.drop 20).take 8)
     let crc := ofLE ((img.drop 28).take 4)
     let hdr := (img.drop (32 + ofs)).take size
-    if hdr.length = size ∧ crc32 hdr = crc then some hdr else none
+    if crc32 hdr = crc then some hdr else none
   else none
 
 end SevenZ.Impl
